@@ -275,7 +275,9 @@ func (w *world) finish(res simrt.Result) {
 			w.probes.Add("race_on_other_object", 1)
 		}
 	}
-	w.checkWire(quiescent)
+	// a trailing partial frame is only judged when nothing cut the writer short (connection
+	// failure, local shutdown and process exit are not part of C11's quantifier)
+	w.checkWire(quiescent && sc.Failure == nil && sc.ShutdownAfter == 0 && len(sim.Exits) == 0)
 
 	// ---- inbound oracles
 	remoteFailure := w.conn.failed
